@@ -285,6 +285,10 @@ BufFromFile(p, nopath, r) ==
        ELSE IF nopath \/ ~Exists(p) THEN r.rc # 0 /\ r.unused \in {0, 1}
        ELSE r.rc # 0 => r.unused \in {0, 1}          \* a directory: not documented; if refused, the buffer is unused
 
+(* a source whose size is not known in advance (a FIFO fed by another process with content w): the same promise - the    *)
+(* whole content, a terminator behind it, a buffer of the caller's allocator whose block covers the capacity it claims  *)
+BufFromFifo(r) == /\ UNCHANGED fvars /\ r.made = 1 /\ r.rc = 0 /\ r.c = r.w /\ r.nul = 1 /\ r.own = 1
+
 (* ---- separators                                                                                 *)
 Seps == {47, 92}                              \* '/' and '\' : the separators of the supported platforms
 IsSepAll(res) == (\A i \in 0..255 : (res[i + 1] = 1) <=> (i \in Seps)) /\ UNCHANGED fvars
